@@ -109,6 +109,23 @@ thread_local! {
     static STEP: Cell<u64> = const { Cell::new(0) };
     static REC: RefCell<Option<Arc<Mutex<ExecRecord>>>> = const { RefCell::new(None) };
     static IN_EXEC: Cell<bool> = const { Cell::new(false) };
+    static ALIVE: Cell<i64> = const { Cell::new(0) };
+    static NEXT_TASK: Cell<usize> = const { Cell::new(100) };
+    static TASKS: RefCell<std::collections::HashMap<usize, String>> = RefCell::new(std::collections::HashMap::new());
+}
+
+pub fn dump_alive_tasks() {
+    TASKS.with(|t| {
+        for (id, bt) in t.borrow().iter() {
+            let lines: Vec<&str> = bt.lines().filter(|l| l.contains("ntex") || l.contains("mc::")).take(14).collect();
+            eprintln!("--- task {id} spawned at:\n{}", lines.join("\n"));
+        }
+    });
+}
+
+/// Number of ntex tasks spawned on this thread and not yet freed (leak diagnostics).
+pub fn alive_tasks() -> i64 {
+    ALIVE.with(|a| a.get())
 }
 
 /// Append a line to the current execution's observation log.
@@ -136,19 +153,40 @@ fn global_init() {
     INIT.call_once(|| {
         unsafe {
             ntex_rt::task_callbacks(
-                || Some(1 as *const ()),
+                || {
+                    ALIVE.with(|a| a.set(a.get() + 1));
+                    if std::env::var("VERIF_LEAKDBG").is_ok() {
+                        let id = NEXT_TASK.with(|n| {
+                            n.set(n.get() + 1);
+                            n.get()
+                        });
+                        let bt = std::backtrace::Backtrace::force_capture().to_string();
+                        TASKS.with(|t| t.borrow_mut().insert(id, bt));
+                        return Some(id as *const ());
+                    }
+                    Some(1 as *const ())
+                },
                 |p| {
                     POLLS.with(|c| c.set(c.get() + 1));
                     p
                 },
                 |_| {},
                 // a task dropped by the executor without being polled (cancelled) is activity too
-                |_| POLLS.with(|c| c.set(c.get() + 1)),
+                |p| {
+                    ALIVE.with(|a| a.set(a.get() - 1));
+                    if std::env::var("VERIF_LEAKDBG").is_ok() {
+                        TASKS.with(|t| t.borrow_mut().remove(&(p as usize)));
+                    }
+                    POLLS.with(|c| c.set(c.get() + 1))
+                },
             );
         }
         let default_hook = std::panic::take_hook();
         std::panic::set_hook(Box::new(move |info| {
             let in_exec = IN_EXEC.with(|c| c.get());
+            if std::env::var("VERIF_LOUD").is_ok() {
+                eprintln!("PANIC: {info}\n{}", std::backtrace::Backtrace::force_capture());
+            }
             if in_exec {
                 let loc = info
                     .location()
@@ -187,7 +225,24 @@ impl Notify for NoNotify {
 
 struct RootState {
     done: Cell<bool>,
+    /// set by the driver when the runtime went quiet after the world was dropped
+    torn_down: Cell<bool>,
+    world_dropped: Cell<bool>,
     waker: RefCell<Option<Waker>>,
+}
+
+struct TeardownWait(Rc<RootState>);
+impl Future for TeardownWait {
+    type Output = ();
+    fn poll(self: Pin<&mut Self>, cx: &mut Context<'_>) -> Poll<()> {
+        bump_root_poll();
+        if self.0.torn_down.get() {
+            Poll::Ready(())
+        } else {
+            *self.0.waker.borrow_mut() = Some(cx.waker().clone());
+            Poll::Pending
+        }
+    }
 }
 
 struct RootWait(Rc<RootState>);
@@ -233,6 +288,7 @@ impl<S: Scenario> Driver for Drv<S> {
         let mut next_choice = 0usize;
         let mut finishing = false;
         let mut idle_spins = 0u32;
+        let mut teardown_polls = 0u32;
         let mut polls: u64 = 0;
         loop {
             let before = POLLS.with(|p| p.get());
@@ -256,10 +312,18 @@ impl<S: Scenario> Driver for Drv<S> {
             if finishing {
                 if ran {
                     idle_spins = 0;
+                    teardown_polls += 1;
                 } else {
                     idle_spins += 1;
                     if idle_spins > 1000 {
                         return Err(std::io::Error::other("root future did not finish"));
+                    }
+                }
+                if self.root.world_dropped.get() && !self.root.torn_down.get() && (idle_spins >= 3 || teardown_polls > 2000) {
+                    // quiet (or not settling): end the execution
+                    self.root.torn_down.set(true);
+                    if let Some(w) = self.root.waker.borrow_mut().take() {
+                        w.wake();
                     }
                 }
                 continue;
@@ -453,7 +517,7 @@ fn exec_here<S: Scenario>(cfg: &S::Cfg, choices: &[u16], script: Option<Vec<Stri
     let r = std::panic::catch_unwind(std::panic::AssertUnwindSafe(move || {
         let rt = Runtime::builder().event_interval(1).build(Box::new(NoNotify));
         let world: Rc<RefCell<Option<S>>> = Rc::new(RefCell::new(None));
-        let root = Rc::new(RootState { done: Cell::new(false), waker: RefCell::new(None) });
+        let root = Rc::new(RootState { done: Cell::new(false), torn_down: Cell::new(false), world_dropped: Cell::new(false), waker: RefCell::new(None) });
         let drv = Drv::<S> { world: world.clone(), root: root.clone(), choices, script: script.map(|v| RefCell::new(v.into())), max_polls, rec: rec2 };
         let w2 = world.clone();
         let r2 = root.clone();
@@ -461,19 +525,40 @@ fn exec_here<S: Scenario>(cfg: &S::Cfg, choices: &[u16], script: Option<Vec<Stri
             bump_root_poll();
             let s = S::build(&cfg2).await;
             *w2.borrow_mut() = Some(s);
-            RootWait(r2).await;
+            RootWait(r2.clone()).await;
             // drop the world inside the runtime so destructors can spawn/encode
             let s = w2.borrow_mut().take();
             drop(s);
+            // let the endpoints notice (peer gone), shut down and free their tasks before the runtime goes away
+            r2.world_dropped.set(true);
+            TeardownWait(r2).await;
+            // Drop the wakers that keep the timer tasks alive while the runtime still exists: dropping a
+            // task's last waker re-schedules it so that the executor drops its future; with the runtime
+            // gone that would never happen and the task (with its buffers) would leak.
+            unsafe { ntex_rt::remove_all_items() };
+            ntex_util::time::vclock::reset();
         };
         rt.block_on(fut, &drv);
+        if std::env::var("VERIF_LEAKDBG").is_ok() {
+            eprintln!("alive after block_on: {}", alive_tasks());
+        }
         drop(drv);
         drop(rt);
+        if std::env::var("VERIF_LEAKDBG").is_ok() {
+            eprintln!("alive after rt drop: {}", alive_tasks());
+        }
     }));
     // return the thread to a pristine state (timers, io manager, virtual clock)
     let cleanup = std::panic::catch_unwind(|| {
         unsafe { ntex_rt::remove_all_items() };
+        if std::env::var("VERIF_LEAKDBG").is_ok() {
+            eprintln!("alive after remove_all_items: {}", alive_tasks());
+        }
         ntex_util::time::vclock::reset();
+        if std::env::var("VERIF_LEAKDBG").is_ok() {
+            eprintln!("alive after vclock reset: {}", alive_tasks());
+            dump_alive_tasks();
+        }
     });
     REC.with(|r| *r.borrow_mut() = None);
     IN_EXEC.with(|c| c.set(false));
@@ -797,7 +882,15 @@ fn worker<S: Scenario>(cfg: &S::Cfg, ecfg: &ExploreCfg, deadline: Instant, share
                 devs += 1;
             }
         }
-        let over = n >= ecfg.max_execs || Instant::now() >= deadline;
+        let mut over = n >= ecfg.max_execs || Instant::now() >= deadline;
+        if n % 4096 == 0 {
+            // RSS cap inside the engine: a runaway exploration must end as a reported cap, not as an OOM kill
+            let rss_kb = std::fs::read_to_string("/proc/self/statm").ok().and_then(|s| s.split_whitespace().nth(1).and_then(|x| x.parse::<u64>().ok())).unwrap_or(0) * 4;
+            if rss_kb > 24 * 1024 * 1024 {
+                local.cap_hit = Some(format!("resident set {} MB exceeded the 24 GB engine cap after {n} executions", rss_kb / 1024));
+                over = true;
+            }
+        }
         {
             let mut g = shared.stack.lock().unwrap();
             g.1 -= 1;
